@@ -17,7 +17,8 @@ TECHNIQUE = 'exhaustive enumeration of all stop points/shapes/dtypes of the real
 LEVEL_TEXT = ('All 2*(4*(Nr+1)+1) stop points for each key size, four broadcasting shapes and seven integer dtypes are executed on the real scared.aes and compared with the '
               'FIPS-197 reference state at exactly that slot, on >=256-block pools covering every byte value at every position; sub_bytes/shift_rows/add_round_key on complete '
               'per-position domains, mix_column on all <=2-active-byte columns (quick) / all 2^32 columns (thorough); caller arrays and module tables must stay unchanged; '
-              'two sweep orders must agree.')
+              'two sweep orders must agree; every call sequence of depth <=4 (quick) / 5 (thorough) over {encrypt, decrypt, stop-point calls, in-place rewrite of the key array / one key byte / the block array} '
+              'on the same array objects returns the state for the current contents (the cipher has no memory).')
 LEVEL_NOTE = 'Trusted: numpy, reference model (validated against FIPS vectors and pycryptodome). Not covered: the full key x block product space.'
 DESIGN_REF = 'DESIGN.md section 3, C05'
 
@@ -39,6 +40,8 @@ def shards(tier, seed):
     out.append({'name': 'prim-mixcol-2active', 'kind': 'mix2', 'cost': 40})
     out.append({'name': 'prim-errors', 'kind': 'errors', 'cost': 1})
     out.append({'name': 'layouts', 'kind': 'layouts', 'cost': 8})
+    for nk in NKS:
+        out.append({'name': 'histories-%d' % nk, 'kind': 'histories', 'nk': nk, 'cost': 12})
     if tier == 'thorough':
         for c in range(64):
             out.append({'name': 'mixcol-full-%02d' % c, 'kind': 'mixfull', 'chunk': c, 'chunks': 64, 'cost': 100})
@@ -89,6 +92,8 @@ def run_shard(shard, ctx):
         _errors(col, aes, np)
     elif kind == 'layouts':
         _layouts(seed, col, aes, R, np)
+    elif kind == 'histories':
+        _histories(shard, seed, tier, col, aes, R, np)
     if _tables_digest(aes) != tab0:
         col.violation('C05/module-tables-modified', 'module-level tables or round-operation lists changed during the sweep %s' % shard['name'], {'shard': shard['name']})
     return col.result()
@@ -282,6 +287,61 @@ def _errors(col, aes, np):
             col.violation('C05/out-of-domain-accepted', 'encrypt accepted a non-byte state %s' % bad.tolist(), {'state': bad.tolist()})
         except (ValueError, TypeError):
             pass
+
+
+def _histories(shard, seed, tier, col, aes, R, np):
+    """The cipher has no memory: every call sequence (depth <= D) over calls on the SAME block/key array objects and in-place rewrites of those
+    arrays between calls; every call must return the FIPS-197 state for the CURRENT content of the arrays (E1-style, all sequences, chained without reset so
+    that each sequence also starts from a non-initial library state)."""
+    import itertools
+    nk = shard['nk']; nr = nk // 4 + 6
+    blocks, keys = _pool(seed, nk)
+    depth = 4 if tier == 'quick' else 5
+    cache = {}
+
+    def ref(b, k, mode):
+        key = (b.tobytes(), k.tobytes(), mode, b.shape, k.shape)
+        if key not in cache:
+            rk = R.round_keys_v(np.atleast_2d(k)); b2 = np.atleast_2d(b)
+            cache[key] = R.enc_trace_v(b2, rk) if mode == 'enc' else R.dec_trace_v(b2, rk)
+        return cache[key]
+    calls = {'E': ('enc', None, None), 'D': ('dec', None, None), 'Es': ('enc', 1, 2), 'Ds': ('dec', nr - 1, 1)}
+    muts = ('Kall', 'Kbyte', 'Ball')
+    menu = list(calls) + list(muts)
+    for shape in ('1b1k', 'NbNk', '1bKk'):
+        for seq in itertools.product(menu, repeat=depth):
+            if seq[-1] in muts or not any(e in muts for e in seq): continue            # ends with a call, contains a rewrite
+            if any(a in muts and b_ in muts and a == b_ for a, b_ in zip(seq, seq[1:])): continue
+            B = blocks[256].copy() if shape != 'NbNk' else blocks[256:259].copy()
+            K = keys[0].copy() if shape == '1b1k' else keys[0:3].copy()
+            step = 0
+            for pos, ev in enumerate(seq):
+                if ev == 'Kall':
+                    step += 1; K[...] = keys[(step * 3) % len(keys)] if K.ndim == 1 else keys[[(step * 3 + j) % len(keys) for j in range(K.shape[0])]]
+                elif ev == 'Kbyte':
+                    step += 1
+                    if K.ndim == 1: K[(5 * step) % nk] ^= 0x5a
+                    else: K[1, (5 * step) % nk] ^= 0x5a
+                elif ev == 'Ball':
+                    step += 1; B[...] = blocks[(step * 37) % 256] if B.ndim == 1 else blocks[[(step * 37 + j) % 256 for j in range(B.shape[0])]]
+                else:
+                    mode, r, st = calls[ev]
+                    case = {'kind': 'history', 'nk': nk, 'shape': shape, 'sequence': list(seq), 'position': pos}
+                    col.evaluations += 1; col.states += 1; col.transitions += 1
+                    try:
+                        got = _call(aes, mode, B, K, r, st)
+                    except Exception as e:
+                        col.violation('C05/history/raised', 'AES-%d %s, call %d of %s: %s: %s' % (nk * 8, shape, pos, list(seq), type(e).__name__, e), case); continue
+                    tr = ref(B, K, mode)
+                    exp = tr[(nr, 3)] if r is None else tr[(r, st)]
+                    if shape == '1b1k': exp = exp[0]
+                    if pos and any(e in muts for e in seq[:pos]): col.nontrivial += 1
+                    if np.asarray(got).shape != exp.shape or not np.array_equal(np.asarray(got), exp):
+                        col.violation('C05/history/%s' % mode, 'AES-%d %s: call %d (%s) of the sequence %s on the same block/key array objects (rewritten in place between calls) does not return the FIPS-197 '
+                                      'state for the current array contents: key=%s block=%s got=%s expected=%s' % (nk * 8, shape, pos, ev, list(seq), np.atleast_2d(K)[-1].tolist(), np.atleast_2d(B)[-1].tolist(),
+                                                                                                        np.atleast_2d(got)[-1].tolist(), np.atleast_2d(exp)[-1].tolist()), case)
+            col.outcomes.add(seq)
+    col.sample({'check': 'call histories on reused arrays', 'depth': depth, 'menu': menu}, limit=1)
 
 
 def _layouts(seed, col, aes, R, np):
